@@ -59,7 +59,31 @@ def record_history(ptn, seed, quick):
         for _ in range(int(rng.integers(3, 7))):
             mpss = [k for k, (c, o) in pool.items() if c == 'mps' and max(o.bond_dims) <= 8]
             mpos = [k for k, (c, o) in pool.items() if c == 'mpo' and max(o.bond_dims) <= 4]
-            op = str(rng.choice(['add_mps', 'sub_mps', 'add_mpo', 'sub_mpo', 'mul', 'apply', 'identity', 'dense_vec', 'dense_mat', 'sparse_mat']))
+            op = str(rng.choice(['add_mps', 'sub_mps', 'add_mpo', 'sub_mpo', 'mul', 'apply', 'identity', 'dense_vec', 'dense_mat', 'sparse_mat', 'poke']))
+            if op == 'poke' and (mpss or mpos):
+                # in-place user modification of a live object between operations
+                a = int(rng.choice(mpss + mpos))
+                cfac = int(rng.choice([2, -1, 3]))
+                cls, o = pool[a]
+                k = int(rng.integers(L))
+
+                def dense_event():
+                    if cls == 'mps':
+                        tr.append(dict(ev='dense_vec', a=a, v=snap_array_gauss(o.as_vector(), 'as_vector')))
+                    else:
+                        sp = bool(rng.integers(2))
+                        m = o.as_matrix(sparse_format=sp)
+                        tr.append(dict(ev='dense_mat', a=a, sparse=sp, m=snap_array_gauss(m.toarray() if sp else m, 'as_matrix')))
+                if max(o.bond_dims) <= (8 if cls == 'mps' else 4):
+                    dense_event()           # the dense form is asked for before ...
+                if rng.random() < 0.5:
+                    o.A[k] *= cfac
+                else:
+                    o.A[k] = o.A[k] * cfac
+                tr.append(dict(ev='poke', a=a, cls=cls, c=cfac))
+                if max(o.bond_dims) <= (8 if cls == 'mps' else 4):
+                    dense_event()           # ... and after the modification
+                continue
             if op in ('add_mps', 'sub_mps') and mpss:
                 a, b = int(rng.choice(mpss)), int(rng.choice(mpss))
                 # boundary charges must agree (library precondition)
